@@ -132,32 +132,38 @@ pub fn menu(quick: bool) -> Vec<(String, LmSpec)> {
             sense: Sense::Min,
         },
     ));
-    if !quick {
-        // systematic 4-item knapsacks: weights and values from small menus
-        let ws = [2.0, 3.0, 5.0];
-        let vs = [3.0, 4.0, 7.0];
-        for code in 0..(3u32.pow(8)) {
-            let mut c = code;
-            let mut wv = vec![];
-            let mut vv = vec![];
-            for _ in 0..4 {
-                wv.push(ws[(c % 3) as usize]);
-                c /= 3;
-            }
-            for _ in 0..4 {
-                vv.push(vs[(c % 3) as usize]);
-                c /= 3;
-            }
-            let tot: f64 = wv.iter().sum();
-            out.push((
-                format!("k4-{code}"),
-                LmSpec { vars: bools(4), rows: vec![row(&wv, Rel::Le, (tot / 2.0).floor() + 0.5, "cap")], obj: vv, offset: 0.0, sense: Sense::Max },
-            ));
+    // systematic knapsacks (max, <=) and coverings (min, >=): weights and values from small menus;
+    // 3 items in the quick tier, 4 items in the thorough tier
+    let ws = [2.0, 3.0, 5.0];
+    let vs = [3.0, 4.0, 7.0];
+    let items: u32 = if quick { 3 } else { 4 };
+    for code in 0..(3u32.pow(2 * items)) {
+        let mut c = code;
+        let mut wv = vec![];
+        let mut vv = vec![];
+        for _ in 0..items {
+            wv.push(ws[(c % 3) as usize]);
+            c /= 3;
         }
+        for _ in 0..items {
+            vv.push(vs[(c % 3) as usize]);
+            c /= 3;
+        }
+        let tot: f64 = wv.iter().sum();
+        let totv: f64 = vv.iter().sum();
+        out.push((
+            format!("k{items}-{code}"),
+            LmSpec { vars: bools(items as usize), rows: vec![row(&wv, Rel::Le, (tot / 2.0).floor() + 0.5, "cap")], obj: vv.clone(), offset: 0.0, sense: Sense::Max },
+        ));
+        out.push((
+            format!("c{items}-{code}"),
+            LmSpec { vars: bools(items as usize), rows: vec![row(&vv, Rel::Ge, (totv / 2.0).floor() + 0.5, "need")], obj: wv, offset: 0.25, sense: Sense::Min },
+        ));
     }
     out
 }
 
+const DOORS: [&str; 2] = ["free-function", "builder-Microlp"];
 const GAPS: [Option<f64>; 11] = [None, Some(0.0), Some(1e-9), Some(0.1), Some(0.5), Some(10.0), Some(-1.0), Some(-0.0), Some(f64::NAN), Some(f64::INFINITY), Some(f64::NEG_INFINITY)];
 
 fn gap_valid(g: Option<f64>) -> bool {
@@ -213,7 +219,31 @@ fn check_model(name: &str, spec: &LmSpec, l: &mut Local) {
     if zstar.is_some() {
         l.nontrivial(&spec.canon_hash());
     }
+    // a gap without any time limit, through the builder's solver object, must answer like the unlimited run
     for gap in GAPS {
+        if !gap_valid(gap) {
+            continue;
+        }
+        let mut solver = rooc::Microlp::new();
+        if let Some(g) = gap {
+            solver = solver.with_mip_gap(g);
+        }
+        web_time::vclock::reset();
+        let r = crate::core::catch(|| rooc::builder::Solver::solve(&solver, &lm));
+        l.count("builder_without_time_limit");
+        let ok = match (&r, &base) {
+            (Ok(Ok(a)), Ok(b)) => {
+                let g = gap.unwrap_or(0.0);
+                (a.value() - b.value()).abs() <= g * a.value().abs().max(1e-10) + 1e-6 * b.value().abs().max(1.0)
+            }
+            (Ok(Err(a)), Err(b)) => classify_err(a) == classify_err(b),
+            _ => false,
+        };
+        if !ok {
+            l.violation("builder:no-time-limit-differs-from-unlimited", format!("Microlp builder solver with gap {:?} and no time limit answers differently from the unlimited search ({base_desc})", gap), json!({"model": spec.show(), "name": name, "mip_gap": format!("{gap:?}")}));
+        }
+    }
+    for (door, gap) in DOORS.iter().flat_map(|d| GAPS.iter().map(move |g| (*d, *g))) {
         let gname = match gap {
             None => "unset".to_string(),
             Some(g) => format!("{g}"),
@@ -221,10 +251,26 @@ fn check_model(name: &str, spec: &LmSpec, l: &mut Local) {
         for k in 0..=(n_reads + 1) {
             let opts = MilpOptions { mip_gap: gap, time_limit: Some(Duration::from_nanos(k)) };
             web_time::vclock::reset();
-            crate::core::set_phase(&format!("milp time_limit={k}ns gap={gname}"));
-            let r = crate::core::catch(|| rooc::solve_milp_lp_problem_with(&lm, &opts));
+            crate::core::set_phase(&format!("{door} time_limit={k}ns gap={gname}"));
+            let r = if door == "free-function" {
+                crate::core::catch(|| rooc::solve_milp_lp_problem_with(&lm, &opts))
+            } else {
+                // the builder's solver object: options set through with_mip_gap / with_time_limit in both call orders
+                let mut solver = rooc::Microlp::new();
+                if k % 2 == 0 {
+                    solver = solver.with_time_limit(Duration::from_nanos(k));
+                }
+                if let Some(g) = gap {
+                    solver = solver.with_mip_gap(g);
+                }
+                if k % 2 == 1 {
+                    solver = solver.with_time_limit(Duration::from_nanos(k));
+                }
+                crate::core::catch(|| rooc::builder::Solver::solve(&solver, &lm))
+            };
+            l.count(&format!("door:{door}"));
             l.count("expiry_points");
-            let case = |r: &str| json!({"model": spec.show(), "name": name, "time_limit_ns": k, "clock_reads_uninterrupted": n_reads, "mip_gap": gname, "result": r, "oracle": oname, "optimum": zstar});
+            let case = |r: &str| json!({"model": spec.show(), "name": name, "door": door, "time_limit_ns": k, "clock_reads_uninterrupted": n_reads, "mip_gap": gname, "result": r, "oracle": oname, "optimum": zstar});
             let r = match r {
                 Err(p) => {
                     l.violation("panic", format!("panicked: {p}"), case("panic"));
@@ -291,7 +337,7 @@ pub fn run(mut run: Run) -> ! {
     run.isolate = true;
     run.case_timeout_s = 60.0;
     let m = menu(run.quick());
-    run.rule = "for every MILP/LP model of the menu (knapsack, covering, mixed-integer, general-integer, infeasible, unbounded, pure LP; thorough adds all 6561 four-item knapsacks over weight/value menus) the number N of clock reads of the uninterrupted search is measured under the virtual clock, then solve_milp_lp_problem_with is run for EVERY expiry point k = 0..N+1 (time_limit = k ns) x 11 mip_gap values; evaluations = models, coverage.expiry_points = executions; non-trivial = model with a finite optimum".into();
+    run.rule = "for every MILP/LP model of the menu (knapsack, covering, mixed-integer, general-integer, infeasible, unbounded, pure LP; plus every knapsack (max, <=) and covering (min, >=) problem over weight/value menus of 3 values: all 2 x 729 three-item ones in the quick tier, all 2 x 6561 four-item ones in the thorough tier) the number N of clock reads of the uninterrupted search is measured under the virtual clock, then the search is run for EVERY expiry point k = 0..N+1 (time_limit = k ns) x 11 mip_gap values x 2 entry points (solve_milp_lp_problem_with; the builder solver object Microlp::new().with_mip_gap().with_time_limit() in both call orders), plus the builder object with a gap and no time limit; evaluations = models, coverage.expiry_points = executions; non-trivial = model with a finite optimum".into();
     run.assume("virtual clock replaces crate web-time (the only clock microlp reads): each read advances time by 1 ns, so real executions are a subset of the enumerated expiry points (a real deadline also fires at some clock read and stays fired)");
     run.assume("exact MILP optimum by integer box enumeration + exact LP; feasibility certificate at 1e-6; Optimal label must be within gap*max(|value|,1e-10) (+1e-6 relative) of the optimum");
     let m2 = m.clone();
